@@ -3,17 +3,21 @@
              empty @is_you(int a0 .. int a(n-1)) { bool b0 = D0; bool b1 = D1; ..; if (C) .. }
            as
              <w> <nparams> <stmt> ... <stmt>
-           stmt ::= (decl <off> E)     `bool x = E;` whose checked initialiser is a comparison /
-                                       and / or: eval_expr BooleanOp case with keep = True, result
-                                       byte at frame offset <off>   (Model: value_lowering_keep)
-                  | (skip)             a declaration that does not go through bool_expr_branch
+           stmt ::= (decl E)           `bool x = E;` whose checked initialiser is a comparison /
+                                       and / or: eval_expr BooleanOp case with keep = True, the
+                                       result byte is reserved on the frame (Model: value_lowering_keep)
+                  | (skipdecl)         a bool declaration that does not go through bool_expr_branch
+                                       (reserves its byte all the same)
+                  | (skip)             another statement that does not go through bool_expr_branch
                   | (if E)             IfBlock condition                (Model: if_block)
                   | (val <r> E)        BooleanOp in value position into register r0|r1|r2
                                                                         (Model: value_lowering)
            E    ::= (lit 0|1) | (bvar j) | (cmp OP A A) | (not E) | (and E E) | (or E E)
            OP   ::= lt | gt | le | ge | eq | ne
            A    ::= (i k)   k-th int parameter   | (n z)   integer literal
-           The label counters start at 0 and are threaded through the statements in order.
+                  | (ar add|sub|mul A A)
+           The label counters start at 0 and the frame offset at (nparams+1)*w; both are threaded
+           through the statements in order.
    stdout: one line per program: the statements' segments separated by " @@ ", the lines of a
            segment separated by tabs, each line rendered by Model.print_aline. *)
 open Hidlower_core
@@ -54,6 +58,17 @@ let rec pos_of_int n =
   if n = 1 then XH else if n land 1 = 0 then XO (pos_of_int (n lsr 1)) else XI (pos_of_int (n lsr 1))
 let z_of_int n = if n = 0 then Z0 else if n > 0 then Zpos (pos_of_int n) else Zneg (pos_of_int (- n))
 
+(* arbitrary-size decimal literal (the front end folds constants on unbounded integers) *)
+let z_of_string (s : string) : z =
+  let neg = String.length s > 0 && s.[0] = '-' in
+  let ten = z_of_int 10 in
+  let acc = ref Z0 in
+  String.iteri (fun i c ->
+      if i = 0 && (c = '-' || c = '+') then ()
+      else if c >= '0' && c <= '9' then acc := Z.add (Z.mul !acc ten) (z_of_int (Char.code c - 48))
+      else failwith ("bad integer " ^ s)) s;
+  if neg then Z.opp !acc else !acc
+
 let string_of_chars (l : char list) : string =
   let b = Buffer.create 32 in List.iter (Buffer.add_char b) l; Buffer.contents b
 
@@ -61,9 +76,14 @@ let op_of = function
   | "lt" -> SLt | "gt" -> SGt | "le" -> SLe | "ge" -> SGe | "eq" -> SEq | "ne" -> SNe
   | s -> failwith ("bad comparison " ^ s)
 
-let opd_of = function
+let aop_of = function
+  | "add" -> SAdd | "sub" -> SSub | "mul" -> SMul
+  | s -> failwith ("bad arithmetic operator " ^ s)
+
+let rec opd_of = function
   | L [Atom "i"; Atom k] -> OVar (nat_of_int (int_of_string k))
-  | L [Atom "n"; Atom z] -> OLit (z_of_int (int_of_string z))
+  | L [Atom "n"; Atom z] -> OLit (z_of_string z)
+  | L [Atom "ar"; Atom op; x; y] -> OArith (aop_of op, opd_of x, opd_of y)
   | _ -> failwith "bad operand"
 
 let rec expr_of = function
@@ -84,21 +104,23 @@ let render (c : aline list) : string =
 let run_line (line : string) : string =
   match tokenize line with
   | w :: np :: rest ->
-    let env = is_you_env (z_of_int (int_of_string w)) (nat_of_int (int_of_string np)) in
+    let env0 = is_you_env (z_of_int (int_of_string w)) (nat_of_int (int_of_string np)) in
     let st0 : lstate = fun _ -> O in
-    let step (st, acc) s = match s with
-      | L [Atom "decl"; Atom off; e] ->
-        let (c, st') = value_lowering_keep env (expr_of e) (z_of_int (int_of_string off)) st in
-        (st', render c :: acc)
-      | L [Atom "skip"] -> (st, "" :: acc)
+    let bump env = with_top env (Z.add env.stack_top (Zpos XH)) in
+    let step (env, st, acc) s = match s with
+      | L [Atom "decl"; e] ->
+        let (c, st') = value_lowering_keep env (expr_of e) st in
+        (bump env, st', render c :: acc)
+      | L [Atom "skipdecl"] -> (bump env, st, "" :: acc)
+      | L [Atom "skip"] -> (env, st, "" :: acc)
       | L [Atom "if"; e] ->
         let (((c, _), _), st') = if_block env (expr_of e) st in
-        (st', render c :: acc)
+        (env, st', render c :: acc)
       | L [Atom "val"; Atom r; e] ->
         let (c, st') = value_lowering env (expr_of e) (reg_of r) st in
-        (st', render c :: acc)
+        (env, st', render c :: acc)
       | _ -> failwith "bad statement" in
-    let (_, segs) = List.fold_left step (st0, []) (parse_all rest) in
+    let (_, _, segs) = List.fold_left step (env0, st0, []) (parse_all rest) in
     String.concat " @@ " (List.rev segs)
   | _ -> failwith "bad line"
 
